@@ -1266,14 +1266,15 @@ def run(tier):
             seen.add(('sweep', with_support, len(pads)))
             stats[f'sweep_{label}_pads'] = len(pads)
             bump('sweep_files', 64)
-        sweep(True, 'support')
-        sweep(False, 'nosupport')
+        for _ in range(1 if quick else 3):
+            sweep(True, 'support')
+            sweep(False, 'nosupport')
 
         # ---- (b) header patches at the boundary of every block-order rule (just holds / just fails), on real products
         def boundary(prod):
             for rule, patch in c18rules.boundary_patches(prod['buf']):
                 try:
-                    b = cphd_patch_header(prod['buf'], patch)
+                    b = cphd_patch_header(prod['buf'], remove=(patch['-'],)) if '-' in patch else cphd_patch_header(prod['buf'], patch)
                 except ValueError:
                     continue
                 path = os.path.join(tmpdir, 'bnd.cphd')
@@ -1323,13 +1324,17 @@ def run(tier):
 
         # ---- search: an obligation broke or a rule-level comparison failed -> widen around it
         if broken_rules or book.fails:
-            stats['search_widened_for'] = sorted(broken_rules | {f['key'].split(':')[1] for f in book.fails})
-            for _ in range(2):
+            implicated = broken_rules | {f['key'].split(':')[1] for f in book.fails}
+            stats['search_widened_for'] = sorted(implicated)
+            if implicated & c18rules.HEADER_RULES:
                 sweep(True, 'support')
                 sweep(False, 'nosupport')
-            for i in range(8):
-                boundary(make_cphd(rng.getrandbits(40), tmpdir, False, None, [(2, 2)] if i % 2 == 0 else []))
-            xml_cases(600)
+                for i in range(6):
+                    boundary(make_cphd(rng.getrandbits(40), tmpdir, False, None, [(2, 2)] if i % 2 == 0 else []))
+            if implicated - c18rules.HEADER_RULES - {'sicd_pixels', 'sidd_pixels', 'sicd_urns', 'sidd_urns'} or implicated & {'severities', 'guards'}:
+                aimed = sorted({e for rl in implicated for k, v in c18rules.RULE_EDITS.items() if rl.startswith(k) for e in v})
+                xml_cases(300, aimed or None)
+                xml_cases(100)
 
         plan = [('full-pfa', 3, 0), ('full-rma', 3, 0), ('chip-pfa-novd', 8, 4), ('chip-pfa', 2, 0), ('chip-rma', 2, 0)] if quick else \
                [('full-pfa', 6, 0), ('full-rma', 6, 0), ('chip-pfa-novd', 60, 30), ('chip-pfa', 10, 0), ('chip-rma', 10, 0)]
@@ -1476,7 +1481,7 @@ def run(tier):
     chk.coverage['level_note'] = ('proof of the runner semantics, of the file-level rules and of the arithmetic / structural content rules of the CPHD checker '
                                   '(translated and bridged, or hand-modelled); floating-point / geometric content rules and validation_checks.py differential only (partial)')
     by_key = {}
-    for f in fails:
+    for f in sorted(fails, key=lambda f: 'mutation' in json.dumps(f.get('case', {}), default=str)):     # plain inputs before mutants
         by_key.setdefault(f.get('key') or f['msg'][:60], []).append(f)
     chk.coverage['failing_inputs'] = len(fails)
     chk.coverage['failure_keys'] = {k: len(v) for k, v in by_key.items()}
@@ -1518,7 +1523,7 @@ def replay_rule(f, case, tmpdir):
         prod = remake_cphd(pc, tmpdir)
         buf = prod['buf']
         if inp == 'header-patch':
-            buf = cphd_patch_header(buf, case['patch'])
+            buf = cphd_patch_header(buf, remove=(case['patch']['-'],)) if '-' in case['patch'] else cphd_patch_header(buf, case['patch'])
             print('header patch:', case['patch'])
         elif 'mutation' in inner:
             m = [x for x in CPHD_MUTATIONS if x['name'] == inner['mutation']][0]
